@@ -156,7 +156,10 @@ def run_one(desc: dict, controller: "Recorder | None" = None) -> dict:
     from schemathesis.engine.phases import stateful as stateful_phase
     from schemathesis.engine.phases import unit as unit_phase
 
+    from .compat import enable_links
     from .server import LoopbackServer, json_response
+
+    enable_links()  # see compat.py: restores link routing on the installed Hypothesis
 
     unit_phase.WORKER_TIMEOUT = 0.02  # harness process only: shorter polling, same logic
     threading.excepthook = lambda args: None  # a dying worker thread is an observation (WEXIT line), not console noise
